@@ -57,7 +57,7 @@ CHECKS["C13"] = dict(level="other", design="3/C13", technique="type facts on to_
     text="Capacity of the fixed-size variants is compared with the exact maximum decimal length for integers (8..128 bit, wide_integer digit counts up to 1000, elastic_integer digit counts) and integral scaled types; every byte store of the integer path and the scaled overload's sign is dominated by a failed comparison of the written pointer with `last`; every return of errc::value_too_large carries ptr == last; the digit-writing internals are called only from the to_chars family and the fixed-capacity entry points reach the buffer only through cnl::to_chars. Layout contract: along lines with the significand length and exponent pinned and the buffer size free (0..4096), the exit the real to_chars_positive takes (fill(scientific), fill(fixed), value_too_large, a failing CNL_ASSERT) is extracted from its IR and compared with what the real solvers return: fill is reached only with a layout it can carry out inside the buffer, value_too_large only when neither layout holds a digit, and with both possible the one with more digits then fewer characters.",
     note="fill's own copy loops and to_chars_static's digit loop are not analysed: fill's consumption is taken from its CNL_ASSERTs and unconditional writes, to_chars_static<10,int> is modelled by its specification (the decimal text of the exponent). The layout lines cover pinned (digits, exponent) pairs, every buffer size on each.")
 CHECKS["C14"] = dict(level="other", design="3/C14", technique="call-graph reachability, forbidden-callee and argument-derivation rules on -O1 -fno-inline LLVM IR of the fixed-capacity output entry points; template-argument rule on the descale instantiation each to_chars<Rep> calls; forbidden-callee rule below the digit generator; idle-cycle (progress) rule on the loops of descale",
-    text="Decides the property's last sentence and one structural necessary condition of the sign/magnitude clause. Last sentence: to_string, to_chars_static and operator<< (scaled_integer, 128-bit integers) obtain their text from cnl::to_chars applied to the same value, pass the result's own character array as the buffer, compute the length from the returned pointer, and cannot reach any other number formatter. R5: in every cnl::to_chars<Rep,...> instance (19 reps incl. unsigned long long, 128-bit, elastic and wide) the working significand type passed to descale represents every value of Rep (digits and signedness). R6: no rounding (non-truncating) division is reachable from the digit generator to_chars_natural, for rounding_integer / static_integer / elastic / overflow wrappers. R7: every cycle of every loop of the 29 descale instantiations reached makes progress (idle-cycle rule on un-simplified SSA IR; a necessary condition for to_chars to return).",
+    text="Decides the property's last sentence and one structural necessary condition of the sign/magnitude clause. Last sentence: to_string, to_chars_static and operator<< (scaled_integer, 128-bit integers) obtain their text from cnl::to_chars applied to the same value, pass the result's own character array as the buffer, compute the length from the returned pointer, and cannot reach any other number formatter. R5: in every cnl::to_chars<Rep,...> instance (19 reps incl. unsigned long long, 128-bit, elastic and wide) the working significand type passed to descale represents every value of Rep (digits and signedness). R6: no rounding (non-truncating) division is reachable from the digit generator to_chars_natural, for rounding_integer / static_integer / elastic / overflow wrappers. R7: every cycle of every loop of the 29 descale instantiations reached makes progress (idle-cycle rule on un-simplified SSA IR; a necessary condition for to_chars to return). R8: none of descale's 42 room tests is a constant function. R9: one step of the digit generator for the 10 built-in types (the recursive call receives value / base, the stored character is itoc(value mod base), both in the type's own signedness) and the digit alphabet (all 36 values of itoc).",
     note="Digit generation, truncation direction and exponent after rescaling are loops over run-time digits and are not decided.")
 
 CHECKS["C15"] = dict(level="other", design="3/C15", technique="IR equivalence of the parser's table functions with their specification, call-site constant extraction from scan_base, type-level deduction facts, and compile-time witnesses on the types of a stratified sample of user-defined literals",
